@@ -380,7 +380,7 @@ func reifyGetField(
 		// None primitive types always get initialized even if it doesn't implement the
 		// Initializer interface, because nested types might implement the Initializer interface.
 		if value == nil {
-			value = &cfgNil{cfgPrimitive{cfg.ctx, cfg.metadata}}
+			value = &cfgNil{cfgPrimitive{context{parent: cfgSub{cfg}, field: name}, cfg.metadata}}
 		}
 	}
 
